@@ -1,6 +1,7 @@
 import QipVerif.Lemmas.QasmImportFaithful
 import QipVerif.Lemmas.QasmMat2
 import QipVerif.Lemmas.QasmImportTop
+import QipVerif.Lemmas.QasmCustomDen
 /-!
 # C04 — imported OpenQASM 2.0 programs mean what the standard says
 
@@ -197,6 +198,48 @@ example : W0 w0Unitary ∧ ∃ env fl ops prims, flatten w0Unitary = .ok (env, f
   intro s hs
   simp only [w0Unitary, List.mem_cons, List.not_mem_nil, or_false] at hs
   rcases hs with rfl | rfl | rfl | rfl | rfl | rfl | rfl | rfl <;> simp only [ifRangeOk]
+
+/-! ### User gate definitions -/
+
+/-- **User gates: `_custom_gate` has the standard's unitary (any nesting depth).**
+`U`: the user gate definitions of a program, newest first, as the standard accepts them after
+`include "qelib1.inc"` (`DefsOk`: the name is new and not `U`/`CX`; formal parameters and formal qubits
+pairwise distinct; every body statement is `U`, `CX`, `barrier` or a call of a gate declared earlier —
+`qelib1.inc` or user — with the right numbers of parameters and qubits, expressions over `pi`,
+literals, formal parameters, `+ - * /`, unary minus, formal qubits only, no repeated qubit; no divisor is
+a literal zero or a bare formal parameter), at most 64 definitions (recursion budget of the model).
+`storeDef`: bodies as `_initialize_pass` keeps them (barriers dropped).
+For every defined gate `d`, every list `ps` of actual parameters the importer evaluates without an
+exception (`ArgsOk`: supported, closed, no literal zero divisor), every register size `N` and pairwise
+distinct qubits `t` of it: `_custom_gate` (model `customGate`: nested user gates inlined recursively with
+parameters substituted, `qelib1.inc` gates replaced by library gates as in `shortcut_rows`) succeeds on
+the local qubits `0 … k−1`; the standard's `expandCall` succeeds on `t`; and the operator of the standard's
+built-ins on the `N`-qubit register equals the unitary `denX k inner` of the temporary circuit placed on `t`
+(`Tg.embed` along `t`) up to ONE phase.  Induction on the list of definitions (`custom_den_aux`). -/
+theorem import_custom_partial (U : List GateDef) (hU : DefsOk U) (hlen : U.length ≤ 64) (name : Str)
+    (d : GateDef) (hd : U.find? (fun x => x.name == name) = some d) (N : ℕ) (ps : List Expr) (t : List ℕ)
+    (hps : ArgsOk ps) (hpl : ps.length = d.params.length) (htl : t.length = d.qargs.length) (hn : t.Nodup)
+    (hr : ∀ q ∈ t, q < N) :
+    ∃ inner prims M A,
+      customGate (U.map storeDef) 64 name ps ((List.range t.length).map Sum.inl) = .ok inner ∧
+      denX d.qargs.length (inner.map xOfI) = some M ∧
+      expandCall (U ++ qelib1.reverse) name ps t = .ok prims ∧ denPrims N ρ0 prims = some A ∧
+      PhaseEqN A ((tgL N t d.qargs.length htl hn hr).embed M) :=
+  custom_place U hU hlen name d hd N ps t hps hpl htl hn hr
+
+private def userDefs : List GateDef :=
+  [⟨cs!"outer", [cs!"t"], [cs!"a", cs!"b", cs!"c"],
+      [.call cs!"inner" [.div (.id cs!"t") (.lit cs!"2"), .neg .pi] [cs!"c", cs!"a"],
+       .barrier [cs!"a"], .call cs!"ccx" [] [cs!"b", cs!"c", cs!"a"]]⟩,
+   ⟨cs!"inner", [cs!"x", cs!"y"], [cs!"p", cs!"q"],
+      [.U (.id cs!"x") (.mul (.lit cs!"2") (.id cs!"y")) (.lit cs!"0.5") cs!"q", .CX cs!"q" cs!"p",
+       .call cs!"cu1" [.add (.id cs!"x") (.id cs!"y")] [cs!"p", cs!"q"]]⟩]
+
+/-- the class is not empty: nesting, parameter expressions, a barrier, qubits permuted -/
+example : DefsOk userDefs ∧ ArgsOk [Expr.div .pi (.lit cs!"3")] :=
+  ⟨⟨by decide, by decide, by decide, by decide, rfl, by decide,
+    ⟨by decide, by decide, by decide, by decide, rfl, by decide, trivial⟩⟩,
+   ⟨by decide, by decide, by decide⟩⟩
 
 /-- on a one-bit register the simulator's test of `classical_controls = [b]`, value `k` is the
 standard's condition `c == k` -/
